@@ -46,6 +46,8 @@ func podSetOf(p *v1.Pod) string { return p.Labels["kai.scheduler/subgroup-name"]
 
 type setCount struct {
 	before, binds, evicts, pipes int
+	unbound                      int // pods bound and evicted again in this cycle
+	afterLastBind                int // active members right after the set's last bind of the cycle
 }
 
 // CheckC03: gang integrity of the decisions of one cycle (only evaluated on cycles without injected write failures).
@@ -114,7 +116,15 @@ func CheckC03(m *Model, events []sched.Event, cycle int, st *Stats) []run.Violat
 		switch e.Kind {
 		case "bind":
 			sc.binds++
+			sc.afterLastBind = sc.before - sc.evicts + sc.binds
 		case "evict":
+			if !m.Active(p) && seenEv["bind/"+e.Key()] && !seenEv["unbind/"+e.Key()] {
+				// bound earlier in this cycle and evicted again (e.g. an elastic pod added by allocate, then the whole
+				// workload reclaimed): the bind no longer counts
+				seenEv["unbind/"+e.Key()] = true
+				sc.binds--
+				sc.unbound++
+			}
 			if m.Active(p) { // evicting an already terminating pod does not change the active count
 				sc.evicts++
 				g.evActs[e.EvictAction] = true
@@ -161,8 +171,9 @@ func CheckC03(m *Model, events []sched.Event, cycle int, st *Stats) []run.Violat
 		}
 		for _, s := range setNames {
 			sc := g.sets[s]
-			after := sc.before - sc.evicts + sc.binds
-			if sc.binds > 0 && after < g.mins[s] {
+			// judged at the moment of the set's last bind: a later action of the same cycle may evict members again
+			// (the eviction clauses below judge that)
+			if sc.binds > 0 && sc.afterLastBind < g.mins[s] {
 				kind := "bound-below-min"
 				if sc.pipes > 0 {
 					kind = "part-bound-part-nominated"
@@ -174,7 +185,7 @@ func CheckC03(m *Model, events []sched.Event, cycle int, st *Stats) []run.Violat
 			st.Inc("fresh_gang_starts")
 			for _, s := range setNames {
 				sc := g.sets[s]
-				if sc.before-sc.evicts+sc.binds < g.mins[s] {
+				if sc.binds > 0 && sc.afterLastBind < g.mins[s] || sc.binds == 0 && g.mins[s] > 0 && sc.unbound == 0 {
 					out = append(out, Viol("C03", "gang-started-partially", "", cycle, "pod group %s started with a pod set below its minimum: %s", n, desc()))
 					break
 				}
@@ -213,7 +224,7 @@ func CheckC03(m *Model, events []sched.Event, cycle int, st *Stats) []run.Violat
 				// the minimum, but together with the pods nominated in the same cycle every pod set still reaches it.
 				moved := true
 				for _, s := range setNames {
-					if sc := g.sets[s]; sc.before-sc.evicts+sc.pipes < g.mins[s] {
+					if sc := g.sets[s]; sc.before-sc.evicts+sc.binds+sc.pipes < g.mins[s] {
 						moved = false
 					}
 				}
